@@ -771,9 +771,69 @@ func (in *Interp) binop(op token.Token, xt types.Type, x, y Value) Value {
 	return nil
 }
 
+// wholeOf recognises a byte sequence that is exactly the big-endian bytes of one wide term X
+// (the shape of every modelled hash value) or entirely constant, and returns X / the constant.
+func wholeOf(bs []*Term) *Term {
+	n := len(bs)
+	if n < 2 {
+		return nil
+	}
+	allConst := true
+	for _, b := range bs {
+		if !b.IsConst() {
+			allConst = false
+			break
+		}
+	}
+	if allConst {
+		v := new(big.Int)
+		for _, b := range bs {
+			v.Lsh(v, 8)
+			v.Or(v, b.Val)
+		}
+		return BVConst(8*n, v)
+	}
+	var x *Term
+	for k, b := range bs {
+		if b.Op != "extract" || b.Args[0].W != 8*n || b.P[0] != 8*(n-k)-1 || b.P[1] != 8*(n-k)-8 {
+			return nil
+		}
+		if x == nil {
+			x = b.Args[0]
+		} else if x != b.Args[0] {
+			return nil
+		}
+	}
+	return x
+}
+
+func bytesEqTerm(a, b []*Term) *Term {
+	if len(a) != len(b) {
+		return tFalse
+	}
+	if x := wholeOf(a); x != nil {
+		if y := wholeOf(b); y != nil {
+			if x.IsConst() && !y.IsConst() {
+				x, y = y, x
+			} else if !x.IsConst() && !y.IsConst() && x.id > y.id {
+				x, y = y, x
+			}
+			return BVCmp("=", x, y)
+		}
+	}
+	r := tTrue
+	for i := range a {
+		r = And(r, BVCmp("=", a[i], b[i]))
+	}
+	return r
+}
+
 func strEq(a, b Str) *Term {
 	if len(a.B) != len(b.B) {
 		return tFalse
+	}
+	if len(a.B) >= 16 {
+		return bytesEqTerm(a.B, b.B)
 	}
 	r := tTrue
 	for i := range a.B {
